@@ -273,6 +273,8 @@ def targeted(w, rng):
     # comparisons of constants of any magnitude
     a, b = const(), const()
     return rng.choice([lambda: em.LE(a, b), lambda: em.LT(a, b), lambda: em.Equals(a, b), lambda: em.Equals(a, a),
+                       lambda: em.LE(a, a), lambda: em.LT(a, a), lambda: em.GE(em.Plus(a, b), em.Plus(b, a)),
+                       lambda: em.LE(em.Times(a, em.Int(2)), em.Plus(a, a)), lambda: em.LT(em.Minus(a, b), em.Minus(a, b)),
                        lambda: em.LT(em.Plus(a, b), em.Times(a, b)), lambda: em.Equals(em.Minus(a, b), em.Div(a, em.Int(3)))])()
 
 
@@ -470,7 +472,7 @@ def run(ctx):
 
     ok_proofs = ctx.check_props(extra=["theories/Corr/Corr_C11.v"])
     rng = ctx.rng
-    n_worlds = 6 if ctx.quick else 40
+    n_worlds = 6 if ctx.quick else 30
     per_world = 170 if ctx.quick else 500
     batch = 6 if ctx.quick else 5   # worlds evaluated together: one Coq evaluation (two coqc processes) per batch
     n_interps = 10 if ctx.quick else 16
@@ -539,7 +541,7 @@ def run(ctx):
             if wi == 0:  # fixed corpus: the unused quantifier over the object-less type, both quantifiers
                 b0 = [f for f in w.fluents if f.name == "b0"][0]
                 cv = w.fresh_var(w.T3)
-                corpus = [em.Forall(b0(), cv), em.Exists(em.Not(b0()), cv)]
+                corpus = [em.Forall(b0(), cv), em.Exists(em.Not(b0()), cv), em.Forall(em.Bool(False), cv), em.Exists(em.Bool(True), cv)]
             for k in range(per_world + len(corpus)):
                 r = rng.random()
                 try:
@@ -666,9 +668,9 @@ def run(ctx):
                 continue
             tags = ["c11", "with_problem" if c["with_problem"] else "no_problem"] + sorted("op:" + x for x in op_kinds(e))
             tags += ["fails:" + x.split(":")[0].replace(" ", "_") for x in why]
-        tags += empty_unused_tags(e, w)
-        if len(why) == 1 and why[0].startswith("value changed"):
-            tags.append("only:value_changed")
+            tags += empty_unused_tags(e, w)
+            if len(why) == 1 and why[0].startswith("value changed"):
+                tags.append("only:value_changed")
             ctx.fail("corr" if not prop_fails else "oracle",
                      "Simplifier: %s (corr:C11:simplify / simplify_sound)" % ("; ".join(why) if why else "model and implementation disagree"),
                      tags, {"world": c["world"], "expression": str(e), "with_problem": c["with_problem"],
@@ -692,7 +694,7 @@ def run(ctx):
     }, "proof", assumptions=[
         "quantifiers are read strictly (every instance defined)",
         "interpretations give static fluents their initial values and respect the declared user types",
-        "quantified user types have at least one object; no quantifier rebinds a variable that is in scope; fluent arguments contain no quantifier",
+        "quantified user types have at least one object (the deviation of the problem-less simplifier on object-less types is the open finding C11-empty-type-unused-quantifier); no quantifier rebinds a variable that is in scope; fluent arguments contain no quantifier",
         "initial values of static fluents are constants",
     ])
 
